@@ -21,6 +21,37 @@ abbrev TName := String
 inductive Level | anon | auth | root
   deriving DecidableEq, Repr
 
+inductive PrivArg | absent | null | val (s : String)
+  deriving DecidableEq, Repr
+
+def PrivArg.isNull : PrivArg → Bool | .null => true | _ => false
+
+/-- who a request is executed as (dispatch, session.go:480-505) -/
+structure Actor where
+  sid : Sid
+  sessUid : Uid
+  uid : Uid
+  lvl : Level
+  bg : Bool
+  deriving DecidableEq, Repr
+
+/-- a request which its session has dispatched but which has not been processed yet: it sits in a queue of the hub (`hub.join`,
+`hub.unreg`) or of a topic (`Topic.reg`, `Topic.unreg`, `Topic.clientMsg`). Only the histories with crossings (`hold`) have any. -/
+structure HeldReq where
+  kind : String                       -- sub, leave, pub, deltopic, unload
+  a : Actor
+  tn : TName
+  mode : String := ""                 -- sub
+  priv : PrivArg := .absent
+  userGiven : Bool := false
+  unsub : Bool := false               -- leave
+  content : String := ""              -- pub
+  head : List (String × String) := []
+  noEcho : Bool := false
+  hard : Bool := false                -- deltopic
+  deriving DecidableEq, Repr
+
+
 /-- per-subscriber cache entry of a loaded topic (perUserData, topic.go:130-156) -/
 structure PUD where
   online : Int := 0
@@ -105,6 +136,8 @@ structure Topic where
   fndPub : List (Sid × String) := []        -- `fnd` only: the search query of each attached session (Topic.public of a `fnd` topic)
   fndPubMap : Nat := 0                      -- … and what Topic.public holds: 0 nothing, 1 a nil map (shown as `null`: what fndSetPublic leaves when the
                                             -- last query is cleared), 2 a map (emptied by a leaving session it stays `{}`)
+  q : List HeldReq := []                    -- requests queued for the topic and not processed yet (crossings only)
+  exitDeleted : Bool := false               -- a topic which is shutting down: the reason is a deletion (StopDeleted)
   deriving DecidableEq, Repr, Inhabited
 
 structure User where
@@ -123,6 +156,7 @@ structure Sess where
   bg : Bool := false
   subs : List TName := []
   out : Bool := false              -- logged out by the server (initTopicMe could not read the account)
+  inflight : Bool := false         -- a {sub} or {leave} of the session is in flight (Session.inflightReqs holds one at a time)
   deriving DecidableEq, Repr
 
 structure World where
@@ -135,6 +169,9 @@ structure World where
   meSubs : List SubRow := []                -- the users' subscriptions to their own `me` topic (no topic row goes with them)
   fndSubs : List SubRow := []               -- … and to their own `fnd` topic; both are made with the account (store.Users.Create)
   gone : List Uid := []                     -- the accounts which were deleted ({del what=user}): nobody can log in as one of them again
+  hubJoin : List HeldReq := []              -- hub.join: {sub} requests the hub has not looked at yet
+  hubUnreg : List HeldReq := []             -- hub.unreg: topics to shut down (the owner's {del topic}, the idle timer)
+  exiting : List Topic := []                -- topics the hub has shut down which have not processed the news yet (Topic.exit)
   deriving DecidableEq, Repr
 
 /-- a presence message published through the hub to the sessions attached to a topic (presSubsOnline) -/
